@@ -150,6 +150,35 @@ func runMergeRules(c *Ctx) {
 							}
 						}
 					}
+					// key and value both handed to a get-or-create-and-merge helper: the relation is that of its call sites
+					if kp, isKP := key.(*ssa.Parameter); !okKey && key != nil && isKP {
+						if mp, isMP := merged.(*ssa.Parameter); isMP && kp.Parent() == mp.Parent() && kp.Parent() != fn {
+							g := kp.Parent()
+							ki, mi := -1, -1
+							for i, prm := range g.Params {
+								if prm == kp {
+									ki = i
+								}
+								if prm == mp {
+									mi = i
+								}
+							}
+							nSites, okSites := 0, true
+							for _, e := range p.Callers(g) {
+								if e.Site == nil || ki < 0 || mi < 0 || len(e.Site.Common().Args) != len(g.Params) {
+									okSites = false
+									continue
+								}
+								nSites++
+								kc, mc := canon(e.Site.Common().Args[ki]), canon(e.Site.Common().Args[mi])
+								base := strings.TrimSuffix(strings.TrimPrefix(mc, "*("), ")")
+								if kc != fmt.Sprintf("*(%s.ID)", base) && kc != fmt.Sprintf("*(*(%s.ID))", base) {
+									okSites = false
+								}
+							}
+							okKey = okSites && nSites > 0
+						}
+					}
 					c.Check(okKey, "MERGE", r.fname, "merge key of "+shortName(staticCallee(call))+" is the merged entity's own id", p.ipos(call), "accumulator looked up under the id of the value merged into it", "accumulator is looked up under a key other than the id of the value being merged: "+canon(acc)+" <- "+canon(merged))
 				}
 			}
@@ -840,6 +869,113 @@ func runLinkRules(c *Ctx) {
 				c.Violated("LINK", r.fname, key, p.ipos(st), "the link is stored while entities are still being merged: a later in-message version replaces the whole accumulator and erases it")
 			default:
 				c.Proved("LINK", r.fname, key, p.ipos(st), "stored after the entity loop, from one accumulator entry ("+vk+") into another ("+tk+")")
+			}
+		}
+	}
+	// L1b: what the result lists hold are copies: a copy of a trip / vehicle taken before a link is written into the
+	// object it was copied from does not carry that link (the entry of Trips / Vehicles then differs from what the
+	// cross pointers lead to)
+	type siteT struct {
+		blk *ssa.BasicBlock
+		in  ssa.Instruction
+		pos string
+	}
+	copies := map[string][]siteT{}
+	links := map[string][]siteT{}
+	for _, b := range regionBlocks {
+		for _, in := range b.Instrs {
+			st, ok := in.(*ssa.Store)
+			if !ok {
+				continue
+			}
+			if fa, ok := st.Addr.(*ssa.FieldAddr); ok {
+				field := typeName(fa.X.Type()) + "." + fieldName(fa.X.Type(), fa.Field)
+				if a, isAlloc := fa.X.(*ssa.Alloc); isAlloc && a.Comment == "complit" {
+					continue
+				}
+				switch field {
+				case "gtfs.Trip.Vehicle":
+					links["gtfs.Trip"] = append(links["gtfs.Trip"], siteT{siteBlock(b, 0), in, p.ipos(st)})
+				case "gtfs.Vehicle.Trip":
+					links["gtfs.Vehicle"] = append(links["gtfs.Vehicle"], siteT{siteBlock(b, 0), in, p.ipos(st)})
+				}
+				continue
+			}
+			ia, ok := st.Addr.(*ssa.IndexAddr)
+			if !ok {
+				continue
+			}
+			tn := typeName(st.Val.Type())
+			if tn != "gtfs.Trip" && tn != "gtfs.Vehicle" {
+				continue
+			}
+			if ld, isLoad := st.Val.(*ssa.UnOp); !isLoad || ld.Op != token.MUL {
+				continue
+			}
+			_ = ia
+			copies[tn] = append(copies[tn], siteT{siteBlock(b, 0), in, p.ipos(st)})
+		}
+	}
+	forward := func(from, to *ssa.BasicBlock) bool {
+		if from.Parent() != to.Parent() {
+			return false
+		}
+		seen := map[*ssa.BasicBlock]bool{from: true}
+		work := []*ssa.BasicBlock{from}
+		for len(work) > 0 {
+			cur := work[len(work)-1]
+			work = work[:len(work)-1]
+			var next []*ssa.BasicBlock
+			for _, s := range cur.Succs {
+				if s.Dominates(cur) {
+					// back edge: the next iteration handles another object; go on with the exits of that loop only
+					for _, e := range s.Succs {
+						if !(s.Dominates(e) && canReach(e, s)) {
+							next = append(next, e)
+						}
+					}
+					continue
+				}
+				next = append(next, s)
+			}
+			for _, s := range next {
+				if seen[s] {
+					continue
+				}
+				if s == to {
+					return true
+				}
+				seen[s] = true
+				work = append(work, s)
+			}
+		}
+		return false
+	}
+	for _, tn := range []string{"gtfs.Trip", "gtfs.Vehicle"} {
+		for _, cp := range copies[tn] {
+			bad := ""
+			for _, lk := range links[tn] {
+				before := forward(cp.blk, lk.blk)
+				if cp.blk == lk.blk && cp.in.Block() == lk.in.Block() {
+					for _, in := range cp.blk.Instrs {
+						if in == cp.in {
+							before = true
+							break
+						}
+						if in == lk.in {
+							break
+						}
+					}
+				}
+				if before {
+					bad = lk.pos
+				}
+			}
+			key := "copy of " + tn + " into a list"
+			if bad != "" {
+				c.Violated("LINK", r.fname, key, cp.pos, "the value is copied into a list before the link at "+bad+" is written into the object it was copied from: the listed entry never gets the link, and what the cross pointers lead to differs from the entry of the top-level list")
+			} else {
+				c.Proved("LINK", r.fname, key, cp.pos, "no link store follows the copy")
 			}
 		}
 	}
